@@ -19,7 +19,14 @@ class SendPdu(PbMessageWrapper):
     def to_packet(self):
         """Convert SendPdu message to its scapy equivalent
         """
-        return ESB_Payload_Hdr(bytes(self.pdu))
+        packet = ESB_Payload_Hdr(bytes(self.pdu))
+
+        # Set packet metadata (sending options)
+        packet.metadata = ESBMetadata()
+        packet.metadata.channel = self.channel
+        packet.metadata.raw = False
+        packet.metadata.retransmission_count = self.retr_count
+        return packet
 
     @staticmethod
     def from_packet(packet, retr_count: int = 1):
@@ -45,6 +52,12 @@ class SendRawPdu(PbMessageWrapper):
         """Convert SendPdu message to its scapy equivalent
         """
         packet = ESB_Hdr(bytes(self.pdu))
+
+        # Set packet metadata (sending options)
+        packet.metadata = ESBMetadata()
+        packet.metadata.channel = self.channel
+        packet.metadata.raw = True
+        packet.metadata.retransmission_count = self.retr_count
         return packet
 
 
